@@ -325,6 +325,9 @@ def finish(check, tier, seed, results, harness_errors, skipped, t0, verbose=True
         print("%s %s: %d runs (%d skipped by budget), %d non-trivial distinct, %.0f sim-s, %.1fs wall, %d new violations, %d known findings seen, %d harness errors"
               % (check.pid, tier, len(ok), skipped, _distinct_nontrivial(results), sum(r.get("sim_s", 0) for r in ok), wall,
                  len(new), len(known_seen), len(harness_errors)))
+    if verbose and os.environ.get("VERIF_TIMING"):
+        slow = sorted(((r.get("wall", 0), r["index"], r.get("sim_s"), r.get("events")) for r in results), reverse=True)[:6]
+        print("slowest runs (wall s, index, sim s, events):", slow)
     if harness_errors:
         for h in harness_errors[:5]:
             print("HARNESS-ERROR:", h[:2000])
